@@ -174,8 +174,11 @@ HOSTS = [
     ("long-253", LONG, "n:" + LONG),
     ("trailing-dot", "example.com.", "n:example.com."),
     ("underscore", "_srv.example", "n:_srv.example"),
+    # the host every prior request (see build()) already points at: with port 80 the assignment keeps the destination
+    # and changes at most scheme and path
+    ("same-as-current", "old.example", "n:old.example"),
 ]
-QUICK_HOSTS = [0, 3, 4, 5, 8, 9, 10, 13, 14]
+QUICK_HOSTS = [0, 3, 4, 5, 8, 9, 10, 13, 14, 16]
 
 
 def ports_for(default, other):
@@ -270,6 +273,9 @@ B_URLS = [
     ("url", 0, 10, 3, 2, 0, 0, "str"),  # http://[2001:db8::1]:8080/a/b.html
     ("url", 1, 4, 0, 1, 0, 0, "str"),  # https://xn--bcher-kva.example/
     ("url", 0, 0, 2, 1, 0, 0, "bytes"),  # http://example.com:443/
+    # colliding with the ones above: same host and port, only the scheme (and with it which port is elided) differs
+    ("url", 1, 0, 2, 1, 0, 0, "str"),  # https://example.com:80/   (destination of the first URL, other scheme)
+    ("url", 1, 0, 0, 1, 0, 0, "str"),  # https://example.com/      (destination of http://example.com:443/, other scheme)
 ]
 B_HOSTS = ["new.example", "NEW.example", "::1", "bücher.example", b"xn--bcher-kva.example", "127.0.0.1", "old.example"]
 B_EDITS = B_URLS + [("host", h) for h in B_HOSTS] + [("port", p) for p in (80, 443, 8080)] + [("scheme", s) for s in ("http", "https")]
